@@ -7,7 +7,12 @@ using namespace std;
 LagrangeHalfCPolynomial_IMPL::LagrangeHalfCPolynomial_IMPL(const int32_t N) {
     assert(N == 1024);
     coefsC = new double[N];
-    proc = &fftp1024;
+    // The polynomial only ever reads the immutable part of a processor through this pointer (N/2, 2N, the tables of X^a-1).
+    // It must not point into the calling thread's thread_local processor: that one is destroyed when the thread exits,
+    // while the polynomial (e.g. part of a key, or a workspace handed to another thread) may live on.
+    // One processor that lives as long as the process serves all polynomials; transforms keep using the per-thread one.
+    static FFT_Processor_Spqlios *const shared_tables = new FFT_Processor_Spqlios(1024);
+    proc = shared_tables;
 }
 
 LagrangeHalfCPolynomial_IMPL::~LagrangeHalfCPolynomial_IMPL() {
